@@ -29,8 +29,10 @@ class Scratch:
         return p
 
 
-def export_real(image_path: str, timeout: float = 60.0):
-    """-> ({relative path: wav bytes}, ['Exported …' paths], error class or None)."""
+def export_real(image_path: str, timeout: float = 60.0, sizes_only: bool = False):
+    """-> ({relative path: wav bytes}, ['Exported …' paths], error class or None).
+    sizes_only: the values are the file sizes (ints) — nothing of the output is
+    held in the measuring process (C13 measures the tool's memory, not the harness's)."""
     from smpl_extract import actions as A
 
     out = tempfile.mkdtemp(prefix="verif_out_")
@@ -48,6 +50,9 @@ def export_real(image_path: str, timeout: float = 60.0):
         for root, _, names in os.walk(out):
             for n in names:
                 p = os.path.join(root, n)
+                if sizes_only:
+                    files[os.path.relpath(p, out)] = os.path.getsize(p)
+                    continue
                 with open(p, "rb") as f:
                     files[os.path.relpath(p, out)] = f.read()
         exported = [l[len("Exported "):] for l in buf.getvalue().splitlines() if l.startswith("Exported ")]
